@@ -142,7 +142,7 @@ func EncodeWithColor(data []byte, minECCPercent int, userSpecifiedLayers int, co
 		} else {
 			layers = userSpecifiedLayers
 		}
-		if (compact && layers > max_nb_bits_compact) || (!compact && layers > max_nb_bits) {
+		if layers < 0 || (compact && layers > max_nb_bits_compact) || (!compact && layers > max_nb_bits) {
 			return nil, fmt.Errorf("Illegal value %d for layers", userSpecifiedLayers)
 		}
 		TotalBitsInLayer = totalBitsInLayer(layers, compact)
